@@ -36,16 +36,19 @@ def main():
         # a broken pattern / an erroring quantifier body that only some documents reach
         {"t": "or", "l": match(["top"], "==", "5"), "r": match(["mix", "b"], "matches", "("), "val": "", "hv": False, "mode": "", "n1": "", "n2": ""},
         {"t": "or", "l": match(["top"], "==", "5"), "r": coll("any", ["m3e"], "value", "", "top", match(["top", "V"], "==", "2")), "val": "", "hv": False, "mode": "", "n1": "", "n2": ""},
+        # a literal that is ill-formed for the kind one document holds under the key and fine for the kind another one holds
+        match(["top"], "==", "6.5"), match(["top"], "!=", "-1e0"),
     ]
     evs = [{"e": i + 1, "c": 1, "f": False} for i in range(7)] + [{"e": 1, "c": 2, "f": False}, {"e": 3, "c": 2, "f": False},
-           {"e": 8, "c": 1, "f": True}, {"e": 9, "c": 1, "f": True}, {"e": 10, "c": 1, "f": False}, {"e": 11, "c": 1, "f": False}]
+           {"e": 8, "c": 1, "f": True}, {"e": 9, "c": 1, "f": True}, {"e": 10, "c": 1, "f": False}, {"e": 11, "c": 1, "f": False},
+           {"e": 12, "c": 1, "f": False}, {"e": 13, "c": 1, "f": False}]
     # documents: the maps / absent / records documents for evaluators, a few containers for filters
     pick = [i for i, n in enumerate(names) if n in ("maps", "maps-b", "absent", "absent-b", "records", "items", "ifaces", "maps-err-mid", "maps-err-last", "smap", "map-err", "ints", "nil", "arr", "arr-if", "arr-maps")]
     docs_sel = [docs[i] for i in pick]
     # the harness rebuilds documents by index into the concatenated worlds: keep the full list, restrict calls in the model
     if not quick:
         # length-3 histories over a smaller alphabet of calls (8 objects x 7 documents = 56 call types, 178 k histories)
-        evs = [evs[i] for i in (0, 1, 2, 4, 7, 9, 11, 12)]
+        evs = [evs[i] for i in (0, 1, 2, 4, 7, 9, 11, 13)]
         pick = [i for i in pick if names[i] in ("maps", "maps-b", "absent", "absent-b", "items", "arr-if", "arr-maps")]
     world = vlib.api_world("hist", worlds, docs, data["cfgs"], [0, 2], exprs, 2 if quick else 3, evs=evs)
     world["docsel"] = [i + 1 for i in pick]
